@@ -110,6 +110,7 @@ func c16(r *mon.Run) {
 		"merge(@, {self: @})", "merge(a, {k: a})", "a | merge(@, {d: @})", "[merge(a, {h: [a]})]", "merge({x: a}, {y: a}).x", "merge(a, {b: a.b})",
 		"a[?b == `1`]", "a[?b == 'x']", "a[?b != `null`]", "a[?@ == `1`]", "a[?b == `1`] | [0]", "[a[?b == `1`], a[?b != `1`]]", "{r: a[?b == 'x']}", "a[?b == `1`].b", "a[?b == b]", "a[?`1` == b]", "a[?b < `1`]", "a[?!b]", "a[?b && b]", "a[?b || b]",
 		"['\u00e9\\'', '\\'']", "{first: '\u00e9\\'', second: '\\''}", "['a\\'b', '\u00e9\u00e9\u00e9\\'\u00e9', 'c\\'', '\\'\U0001F600\\'']", "['\U0001F600\\'x', 'y\\'']", "join('', ['\u00e9\\'', '\\'\u00e9'])", "['\u00e9\\'', `\"\u00e9\"`, '\\'\u00e9', \"\u00e9\" || 'z\\'']", "[to_string('\u00e9\\''), '\\'']", "{a: '\u4e16\u754c\\'s', b: 's\\'', c: '\\'\u4e16'}",
+		"{\"caf\\u00e9\": a}", "{\"\\u0080\": a, \"\\u00ff\": b}", "keys({\"\\u00e9\": a, \"\\u00c9\": b})", "{\"\\u00e9\": a}.\"\\u00e9\"", "[{\"\\u00e9x\": `1`}, {\"x\\u00e9\": `2`}]", "to_string({\"\\u00fc\\u00df\": a})", "merge({\"\\u00e9\": a}, {\"\u00e9\": b})", "{\"\\ud83d\\ude00\": a, \"\\u2028\": b}", "a[*].{\"\\u00e9\": b}", "{\"\\u007f\\u0080\": @}",
 		"max(a[*].b)", "min(a[*].b)", "max(a[?b].b)", "min(a[?b > `5`].b)", "max(a[].b)", "min(a[1:].b)", "max(a[:0])", "sum(a[*].b)", "avg(a[?b].b)", "avg(a[*].b)", "max(*)", "min(a.*)", "max_by(a[?b], &b)", "sort(a[*].b)", "join('', a[*].b)",
 	}
 	tdocs := []interface{}{
@@ -151,7 +152,8 @@ func c16(r *mon.Run) {
 		}}
 	// numbers read from text on and around the edges of the machine formats: what comes back is a finite float64 or null
 	edgeTmpl := []string{"to_number(a)", "to_number('%s')", "[to_number(a)]", "{n: to_number(a)}", "x[*].to_number(@)", "map(&to_number(@), x)", "sum(x[*].to_number(@))", "avg([to_number(a), to_number(a)])", "max([to_number(a), `0`])", "abs(to_number(a))", "ceil(to_number(a))", "floor(to_number(a))",
-		"to_number(a) || `0`", "not_null(to_number(a), `0`)", "sort(x[*].to_number(@))", "to_number(to_string(to_number(a)))", "to_string(to_number(a))", "sum([to_number(a), to_number(a)])", "`%s`", "[`%s`, `-%s`]", "sum([`%s`, `%s`])", "avg([`%s`, `-%s`])", "abs(`-%s`)"}
+		"to_number(a) || `0`", "not_null(to_number(a), `0`)", "sort(x[*].to_number(@))", "to_number(to_string(to_number(a)))", "to_string(to_number(a))", "sum([to_number(a), to_number(a)])", "`%s`", "[`%s`, `-%s`]", "sum([`%s`, `%s`])", "avg([`%s`, `-%s`])", "abs(`-%s`)",
+		"sum([x[1], x[1], x[2], x[2]][*].to_number(@))", "avg([x[1], x[2], x[1], x[2], x[1]][*].to_number(@))", "sum([`%s`, `-%s`, `%s`, `-%s`, `%s`, `%s`, `-%s`])", "sum([`%s`, `%s`, `-%s`, `-%s`])", "avg([`-%s`, `-%s`, `%s`, `%s`])", "sum([`%s`, `%s`, `%s`, `-%s`, `-%s`, `-%s`, `1`])", "[sum([`%s`, `%s`, `-%s`, `-%s`]), avg([`%s`, `%s`, `-%s`, `-%s`])]", "sum(map(&to_number(@), [x[2], x[2], x[1], x[1]]))"}
 	edge := mon.Workload{Name: "numbers-from-text-at-the-edges-of-the-formats", N: len(edgeNumberStrings) * len(edgeTmpl), Batch: 500,
 		Describe: func(i int) string { return edgeNumberStrings[i/len(edgeTmpl)] + " in " + edgeTmpl[i%len(edgeTmpl)] },
 		Do: func(i int, t *mon.Tally) {
